@@ -18,7 +18,8 @@ CHECKS["C01"] = {
     "claim": ("Generated-input search: rapid-generated envelopes of all kinds and exhaustive small-alphabet text forms, judged by an independent "
               "canonical form (wire-shape predicate + normalised equality) through the typed decoders and the real TCP receive path (one long-lived connection; before every other envelope a refused "
               "relative of the previous one - all of its members plus an unknown event - goes through the same connection and must be answered with an error without touching what follows). "
-              "Plus 16 goroutines round-tripping their own generated envelopes at the same time (TestC01Concurrent)."),
+              "Plus 16 goroutines round-tripping their own generated envelopes at the same time (TestC01Concurrent). "
+              "A document type may also be registered after its media type has already been decoded through the generic fallback: from the registration on it decodes to the registered type at every position (message content, command resource, container value, collection item, collection of containers) on both decoders, whichever saw it first."),
     "note": "Trusts encoding/json, the harness's canonical form (norm.go) and the in-memory net.Conn; values are sampled (text forms exhaustive up to the stated length).",
     "technique": "property-based testing (rapid): round-trip + independent wire-shape oracle; exhaustive small-scope enumeration of text forms",
     "rule": ("rapid-generated envelope specs of all 5 kinds (optional fields drawn independently, recursive documents of every "
@@ -128,7 +129,8 @@ CHECKS["C03"] = {
               "identity/scheme/credentials the peer presented last, under an offered scheme, returning a known role, followed by Register for the peer's node, "
               "and the established envelope / RemoteNode must announce exactly the registered node. Scripts run over TCP (in-memory connections), TCP+TLS and the in-process transport, against a bare "
               "ServerChannel, a Server and a ServerBuilder-built server, with peers that stay, half-close, reset, or vanish right after their last envelope. "
-              "Through the builder the peer also sends authenticating envelopes that name a scheme but carry no authentication object at all: no session may come of them under a scheme that needs credentials."),
+              "Through the builder the peer also sends authenticating envelopes that name a scheme but carry no authentication object at all: no session may come of them under a scheme that needs credentials. "
+              "In a third of the builder cases a second ServerBuilder is configured (with other schemes) while the first server is serving: that changes nothing for the first."),
     "note": "History invariant over callback log + envelopes seen by the scripted peer + exported channel state; scripts/configurations sampled and depth-bounded.",
     "technique": "property-based testing (rapid) + exhaustive depth-bounded script enumeration against a history invariant, in virtual time",
     "rule": ("cases as in C07 (direct and Server modes; enumeration depth 5/6 direct, 4/5 under Server), plus the ServerBuilder entry point over the in-process transport (drawn sets of enabled schemes x 1-3 "
@@ -150,7 +152,8 @@ CHECKS["C14"] = {
     "claim": ("Every failing script of the handshake model (each rejection branch), authentication/registration callback errors, garbage, non-session input, failed TLS "
               "upgrade and the peer vanishing or staying connected, against a real Server: the server end of the connection must be closed, no goroutine may still serve "
               "it after the release bound, neither Established nor Finished may fire, and a refused client must see the end of its connection. Over TCP, TCP+TLS and the in-process transport; "
-              "peers that half-close, stay, stay silent past the deadline, reset, or vanish right after their last envelope."),
+              "peers that half-close, stay, stay silent past the deadline, reset, or vanish right after their last envelope. "
+              "Callback errors come in two flavours: plain, and wrapping a context error although the server's own context is alive."),
     "note": "Server runs over the real TCP transport on in-memory connections (closure observed exactly on the server end); serving goroutines found by stack census. A real-time watchdog outside the bubbles turns a library goroutine that spins or waits for a lock for ever (which stops a bubble's clock) into a violation with the stack frame in its signature instead of a timeout.",
     "technique": "fault enumeration over model-classified failing scripts (exhaustive to a depth bound) + rapid, in virtual time",
     "rule": ("cases as in C07 under a real Server, each with the peer ending by EOF (vanishing) or staying connected (wait), rapid adds silence. Judged only when the model "
@@ -170,7 +173,8 @@ CHECKS["C10"] = {
               "for clients that follow a negotiation and for clients that skip or refuse it, directly on ServerChannel and under a real Server, (b) the library's own "
               "client with every selector, with and without a client TLS configuration, every offered scheme and credential class, (c) rapid-generated scripts: the "
               "Authenticate callback must never run, and no authenticating/established session or client credential may appear in cleartext, while the server transport "
-              "is unencrypted (observed on the callback log, the scripted peer, and the raw byte capture of both directions)."),
+              "is unencrypted (observed on the callback log, the scripted peer, and the raw byte capture of both directions). "
+              "The compression lists are drawn too: the usual one, one with an option the transport lacks, and one that shares nothing with what the transport supports."),
     "note": "Real TLS (crypto/tls) runs over the in-memory connection; the cleartext/TLS boundary is read off the captured bytes.",
     "technique": "exhaustive enumeration of configurations x client behaviours + rapid scripts, with an invariant over callback log and captured wire bytes, in virtual time",
     "rule": ("every case is non-trivial by construction (policy excludes none, transport can do TLS); enumerated: 6 scheme lists x 2 registration modes x 2 entry points x scripts "
@@ -320,7 +324,8 @@ CHECKS["C15"] = {
               "mid-TLS-upgrade, client FinishSession, server EstablishSession with the client silent at each of 4 stages, listener Accept) x transports (in-process, TCP and TCP+TLS over in-memory "
               "connections in virtual time; TCP, TCP+TLS, ws, wss over loopback in real time) x deadline/cancellation x the moment the context ends (before the call, 50 ms, 1.3 s, 7 s; rapid draws others): "
               "a call that is provably blocked when its context ends must return a non-nil error within the stated bound - exact on the virtual clock (1 ms at a deadline; 5 s poll interval for a "
-              "cancellation on TCP), 1 s of slack and two isolated re-runs on real sockets. Plus (TestC15FinishBusy, real time) ServerChannel.FinishSession / FailSession on an established session whose peer keeps writing and whose application keeps consuming, over the in-process transport and loopback TCP, 12 (thorough: 120) rounds per combination: the call returns within its context plus the bound. And (TestC15AfterDeadContext) every channel operation with a 300 ms deadline called right after a channel operation whose context was already cancelled or expired, on the same channel."),
+              "cancellation on TCP), 1 s of slack and two isolated re-runs on real sockets. Plus (TestC15FinishBusy, real time) ServerChannel.FinishSession / FailSession on an established session whose peer keeps writing and whose application keeps consuming, over the in-process transport and loopback TCP, 12 (thorough: 120) rounds per combination: the call returns within its context plus the bound. And (TestC15AfterDeadContext) every channel operation with a 300 ms deadline called right after a channel operation whose context was already cancelled or expired, on the same channel. "
+              "transport.receive also against a slow peer that writes an envelope one byte every 700 ms (never a gap as long as the I/O poll)."),
     "note": "Blocking is established with synctest.Wait (virtual) or by still being pending 20 ms before the end (real); 'peer not reading' is produced by sending until a send blocks.",
     "technique": "exhaustive enumeration of (operation, transport, context end, moment) + rapid timings, latency oracle on a virtual clock; sampled real-socket cases",
     "rule": ("case = (operation, transport, deadline|cancel, time). Non-trivial: the operation was blocked when the context ended. Distinct by SHA-1 of the case."),
@@ -403,7 +408,8 @@ CHECKS["C17"] = {
               "them, a registration callback assigning pairwise distinct nodes unrelated to the candidates, every client sending a drawn interleaving of tagged messages, requests and notifications "
               "at the same time; handlers record the context's session id / remote node / local node and reply through the Sender they were handed: context values must be those of the sending client's "
               "session, every reply must arrive at the client that sent the tag and at no other, each envelope is handled exactly once, session ids are pairwise distinct and equal to ClientChannel.ID() "
-              "and to the ids (and channels) passed to the Established callback, and each client is announced its own registered node. Plus (TestC17Ping) 2-16 sessions of a ServerBuilder server with AutoReplyPings, over the in-process transport and loopback TCP, pinging at the same time (50-600 ProcessCommand calls each): every call gets the response to its own request addressed to its own node, none is lost, nothing unsolicited surfaces."),
+              "and to the ids (and channels) passed to the Established callback, and each client is announced its own registered node. Plus (TestC17Ping) 2-16 sessions of a ServerBuilder server with AutoReplyPings, over the in-process transport and loopback TCP, pinging at the same time (50-600 ProcessCommand calls each): every call gets the response to its own request addressed to its own node, none is lost, nothing unsolicited surfaces. "
+              "Plus servers without a Register callback (ServerBuilder and plain configuration): bursts of 2, 8 and 32 clients released by a barrier register at the same instant; every client is established under its own name, no address is announced twice, and each handler is told its own session's remote node."),
     "note": "Schedules are sampled; in-process dials are serialised by the harness because the library's in-process listener registry is an unsynchronised global (not part of any listed property).",
     "technique": "property-based testing (rapid) of concurrent multi-session workloads with a per-tag routing oracle; virtual time and real sockets",
     "rule": "case = (per-client transport and op list, channel buffer). Non-trivial: >=3 clients on >=2 transports. Distinct by SHA-1 of the case.",
@@ -429,7 +435,8 @@ CHECKS["C13"] = {
               "48 bare client channels finishing their sessions at the same time again and again, and a server whose last word (finished session, then close) is swept in steps of a few nanoseconds across "
               "the instant the client's receiver asks for its next envelope, right after establishment or right after a delivered message: every client reaches the finished state. "
               "Plus the high-level Client against scripted servers (every script of up to 2, thorough 3, symbols of the client-handshake alphabet and drawn ones, a third of them announcing the established session early): "
-              "when the handshake in progress has taken an established session, then after Client.Close the Client's end of the connection is closed and no library goroutine is left, whatever Establish returned."),
+              "when the handshake in progress has taken an established session, then after Client.Close the Client's end of the connection is closed and no library goroutine is left, whatever Establish returned. "
+              "Server initiators are also drawn busy: their dispatch loop sits in a handler and more notifications than their buffers hold have arrived when they end the session; every terminating call is bounded (one that never returns is a violation, not a hang)."),
     "note": "Schedules are sampled; the terminating call's own return value is not judged (under TLS it can report a close_notify write error after a clean finish). Server-side transports are only visible on in-memory connections.",
     "technique": "property-based testing (rapid) over (initiator, moment, transport, buffers, wiring) with state / stream-closure / goroutine-census oracles; virtual time plus real sockets",
     "rule": "case = (transport, wiring, initiator, buffers, traffic counts, termination moment). Non-trivial: termination with traffic still to be sent, or initiated by the server side, or buffer 0. Distinct by SHA-1 of the case.",
@@ -476,7 +483,8 @@ CHECKS["C19"] = {
               "server on the newest session must reach the client's handler, the listener must not spin (virtual: a watchdog outside the bubble sees the fake clock frozen by a running library goroutine "
               "in two stack dumps; real: process CPU time in an idle window), and every send that returned nil must appear in the byte capture of some connection. "
               "Storm (TestC19Storm): 2-16 goroutines send through one Client while the server ends the session (Close / FailSession / FinishSession) after every 1-4 messages, 5-120 times per case, "
-              "over TCP and TCP+TLS in virtual time and the in-process transport in real time; afterwards the same recovery clauses, and no crash of the process."),
+              "over TCP and TCP+TLS in virtual time and the in-process transport in real time; afterwards the same recovery clauses, and no crash of the process. "
+              "Fault kinds also include session envelopes that have no place on an established session (an earlier state, or established once more)."),
     "note": ("Byte-level faults need a byte stream, so the in-process transport only gets finish/fail/EOF. Real-socket cases run one at a time (CPU time is per process). "
              "The storm's interleavings are the Go scheduler's (GOMAXPROCS varied per shard): the nil-channel crash it found shows in about one of four shards of the quick tier."),
     "technique": "fault enumeration (fault kind x moment x repetition x transport) + rapid fault sequences with recovery / liveness oracles; virtual time with an external spin watchdog, plus real sockets",
